@@ -11,8 +11,13 @@ CHECK = dict(
          "deletion or attribute-level helper called with _inplace=True, reset/transform(_inplace=True), update(_inplace=True) "
          "without replacement value writes no pre-existing cell other than the receiver's own, whatever the outcome) and "
          "C08_inplace_element_confined (element helpers: receiver cell and the collection object of the attribute only) are "
-         "proved in Coq. The final-heap form of "
-         "C08_reset_fresh and peer disjointness under nested in-place mutation are partial (see docs/C08.md). The "
+         "proved in Coq; further: no operation ever removes a defaulted attribute from an instance dictionary "
+         "(C08_no_defaulted_attribute_removed, no guard), constructor results hold every defaulted init-enabled attribute "
+         "for ever (C08_holds_defaults_history; necessary guard: no UNCHANGED keyword, see the finding "
+         "C08_unchanged_keyword_refuted), the final-heap form of reset freshness for del / reset_<a>(_inplace=True) "
+         "without dependants (C08_del_fresh_final_heap), and peers created by constructors stay disjoint over histories "
+         "of constructor calls, copy-on-write helpers and in-place scalar assignments provided no intermediate heap has a "
+         "dangling reference (C08_peers_disjoint_history_partial). Remaining partial: see docs/C08.md. The "
          "correspondence runs histories mixing construction, in-place mutation, del / reset_<a> / reset and fresh "
          "instances on every default form of the class grammar (incl. mutable overrides in a spec subclass) and evaluates "
          "in Coq, on the implementation's graphs, the sharing oracles and `same` assertions (attribute after reset equals "
